@@ -74,6 +74,9 @@ type Proc struct {
 	Reqs     []*ReqRecord
 	StoreLog []StoreCall
 	Direct   bool // observer process: served immediately, never scheduled, never logged
+	// DirectFault lets a direct (unscheduled) process take one fault on its K-th request (C10).
+	DirectFault *FaultSpec
+	directN     int
 	sticky   map[string]*FaultSpec
 	keyCount map[string]int
 }
@@ -210,6 +213,20 @@ func (pr *Proc) RoundTrip(req *http.Request) (*http.Response, error) {
 	}
 	s := pr.Sim
 	if pr.Direct {
+		pr.directN++
+		if f := pr.DirectFault; f != nil && !f.fired && f.K == pr.directN {
+			f.fired = true
+			switch f.Kind {
+			case FReject:
+				r := rejectResponse(f.Code, &pend{path: req.URL.Path})
+				return r.HTTP(req), nil
+			case FDrop:
+				return nil, &simErr{"dial tcp 10.0.0.1:6443: connect: connection refused (simulated drop)"}
+			case FLostResponse:
+				s.Server.Handle(req.Method, req.URL.Path, req.URL.Query(), req.Header.Get("Content-Type"), body)
+				return nil, &simErr{"unexpected EOF (simulated: response lost)"}
+			}
+		}
 		r := s.Server.Handle(req.Method, req.URL.Path, req.URL.Query(), req.Header.Get("Content-Type"), body)
 		return r.HTTP(req), nil
 	}
